@@ -283,6 +283,37 @@ void op_cmp(Str const& x, Str const& y, std::size_t n) // n <= min(len)
     sy.check("rhs");
 }
 
+// memcmp/wmemcmp with both pointers into ONE block (C allows read-only arguments to alias): identical pointer
+// (i == j), overlapping ranges (|i-j| < n) and disjoint ranges of the same block; n <= size - max(i,j)
+void op_cmp_alias(Str const& x, std::size_t i, std::size_t j, std::size_t n)
+{
+    char const* op = NM("memcmp[alias]", "wmemcmp[alias]");
+    std::size_t d  = 0;
+    while (d < n && x[i + d] == x[j + d]) { ++d; }
+    std::size_t gap = i > j ? i - j : j - i;
+    char sit[96];
+    std::snprintf(sit, sizeof sit, "%s,%s", i == j ? "same-pointer" : (gap < n ? "overlapping-ranges" : "same-block-disjoint"),
+        n == 0 ? "n=0" : (d == n ? "equal" : (is_extreme(x[i + d]) || is_extreme(x[j + d]) ? "differ-extreme" : (is_high(x[i + d]) || is_high(x[j + d]) ? "differ-high" : "differ-ascii"))));
+    vfc::Src<Ch> sx(x, false);
+    vf::crumb(SUBJ, op, sit, "one block %s: lhs=block+%zu rhs=block+%zu n=%zu", vfc::show(x).c_str(), i, j, n);
+    C* pl = opaque(static_cast<C*>(sx.b.data() + i));
+    C* pr = opaque(static_cast<C*>(sx.b.data() + j));
+    int g = ref::cmp(pl, pr, opaque(n));
+    int e = E(memcmp, wmemcmp)(pl, pr, opaque(n));
+    vf::cover(op, vf::mix(vf::mix(vfc::hash(x), i * 128 + j), n), n != 0);
+    vf::eq_sign("ret", e, g);
+    sx.check("aliased block");
+}
+void cmp_alias_all(Str const& x)
+{
+    for (std::size_t i = 0; i <= x.size(); ++i) {
+        for (std::size_t j = 0; j <= x.size(); ++j) {
+            std::size_t mx = x.size() - (i > j ? i : j);
+            for (std::size_t n = 0; n <= mx; ++n) { op_cmp_alias(x, i, j, n); }
+        }
+    }
+}
+
 // ------------------------------------------------------------------ memchr
 void op_chr(Str const& x, std::size_t n, long long ch, bool converts, bool embedded) // n <= len; block holds n (exact) or len (embedded) elements
 {
@@ -398,6 +429,7 @@ void run_case(vf::Case& c)
         if (k % N == 0) {
             op_copy_blocks(x);
             chr_all(x, sy);
+            cmp_alias_all(x);
         }
         return;
     }
@@ -430,6 +462,11 @@ void run_case(vf::Case& c)
     op_cmp(x, y, lx);
     op_cmp(x, y, (std::size_t)r.below(lx + 1));
     op_copy_blocks(x);
+    for (int k = 0; k < 4; ++k) { // aliased memcmp: same pointer, then random pairs of offsets in the block of x
+        std::size_t i = (std::size_t)r.below(lx + 1), j = k == 0 ? i : (std::size_t)r.below(lx + 1);
+        std::size_t mx = lx - (i > j ? i : j);
+        op_cmp_alias(x, i, j, k == 1 ? mx : (std::size_t)r.below(mx + 1));
+    }
     for (int i = 0; i < 4; ++i) {
         std::size_t n = (std::size_t)r.below(lx + 1);
         Ch ch         = r.coin() && lx ? x[(std::size_t)r.below(lx)] : draw();
